@@ -202,7 +202,7 @@ def field_tables():
             log.clear()
             try:
                 s._feed()
-            except ParserRejectedMarkup:
+            except Exception:  # rejected (ParserRejectedMarkup) or crashed: the touched fields are recorded either way
                 pass
             after = _snapshot(s)
             touches += [k for k in log]
@@ -222,7 +222,11 @@ def gen_construct():
         except UnicodeDecodeError:
             cp.append("none")
     lit = heuristics_literals()
-    ft = field_tables()
+    try:
+        ft = field_tables()
+    except Exception as e:  # the live objects cannot even be instrumented: empty tables, the theorems over them fail
+        sys.stderr.write("parts_c06: field instrumentation failed: %r\n" % (e,))
+        ft = dict(reset=[], header=[], builder=[], feed=[], all=[])
     t = HEADER
     t += "/-! tables of the construction model (C06): CPython facts and literals/field sets read from the live bs4 -/\n"
     t += "namespace BS.Gen\n"
